@@ -9,6 +9,7 @@ of the real numpy generator).  Inside the cell EVERY operation sequence over
     CP = save_checkpoint(file) -> run abandoned -> freshly constructed sampler -> load_checkpoint(file)
     GS = get_state() -> run abandoned -> freshly constructed sampler -> set_state(payload)
     R  = get_samples()  (read-only)
+    S0 = sample(0)      (zero-length call: the split positions 0 and N; at most one per history, no crash op with it)
     RI = (only as first operation) dirty the sampler with warmup(2);sample(1), reinitialize(), start over
 
 with at most `maxn` sampling transitions in total and at most `maxdev` non-advancing operations is executed
@@ -16,12 +17,19 @@ from scratch on fresh objects (no state merging).  The random stream is the real
 seeded after construction; its position is saved at a crash and restored after the fresh sampler has been
 constructed and loaded ("the same random stream").  Oracle: the uninterrupted run `warmup(k); sample(n)`
 on the same stream - every history reaching (k, n) must show the same chain (the part recorded since the
-last crash), the same state payload and the same call-back log; plus the list model of a chain
+last crash), the same state payload, the same call-back log and leave the numpy generator at the same position
+(the stream consumed by N-then-M equals that of N+M); plus the list model of a chain
 (length == transitions, call-back exactly once per transition with (state, index), copies taken at
 call time == finally stored entries).
 
 *Stateless interface* (cuqi.sampler): sample(N, Nb) for the full grid {1..4}x{0..3}, sample_adapt(N, Nb)
-for {10,12}x{0,2,5}; legacy Gibbs and HybridGibbs: N then M, warm-up, immutability of returned chains.
+for {10,12}x{0,2,5}; legacy Gibbs and HybridGibbs: N then M, warm-up, immutability of returned chains.  The HybridGibbs
+set-ups together use every sampler class of cuqi.experimental.mcmc as a block sampler.
+
+*Burn-in / thinning product*: on the chain recorded by the longest uninterrupted run of every cell (Samples of each
+sampler of both interfaces, JointSamples of HybridGibbs, dict of Samples of legacy Gibbs) burnthin(Nb, Nt) for all
+Nb in 0..len, Nt in 1..4 (positional and keyword call) must return exactly the stored states Nb, Nb+Nt, ... in order
+(a raise is accepted when nothing is left), leaving the recorded chain unaltered.
 """
 import os
 
@@ -38,20 +46,28 @@ from vfw import refs
 PROPERTY = "C14"
 RULE = ("stateful cells = sampler set-up x target x warm-up length k x generator seed; inside a cell all operation "
         "sequences over {sample(1), sample(2), checkpoint->fresh sampler->load, get_state->fresh sampler->set_state, "
-        "get_samples, reinitialize-at-start} within the bound are run from scratch and compared with the "
-        "uninterrupted run warmup(k);sample(n) (chain since last crash, state payload, call-back log); "
-        "stateless cells = sampler x seed with the full (N,Nb) grid inside; Gibbs cells = all (N,M,Nb) splits. "
+        "get_samples, reinitialize-at-start} within the bound, plus all sample(1)/sample(2) sequences with one zero-length "
+        "call sample(0) at any position, are run from scratch and compared with the "
+        "uninterrupted run warmup(k);sample(n) (chain since last crash, state payload, call-back log, final position of "
+        "the numpy generator); "
+        "stateless cells = sampler x seed with the full (N,Nb) grid inside; Gibbs cells = all (N,M,Nb) splits (chain and "
+        "generator position), the HybridGibbs set-ups covering every sampler class as block sampler; in every cell the "
+        "chain recorded by the longest uninterrupted run goes through the full burnthin(Nb,Nt) product against the "
+        "slice model stored[Nb::Nt]. "
         "A cell is non-trivial when the reference chain moves (at least two distinct states) and at least one "
         "history with a crash point was compared")
 BOUND = {
     "quick": "stateful: 12 sampler classes in 19 set-ups (+1 scalar-initial-point witness cell), warm-up k in {0,3}, "
              "1 generator seed, all histories with <=4 sampling transitions and <=2 non-advancing operations "
-             "(1026 per cell); HybridGibbs: 4 set-ups, same k, "
-             "<=4 transitions, <=2 reads (136 per cell); stateless: 9 sampler classes in 11 set-ups, sample(N,Nb) on "
+             "(1026 per cell) + 38 histories with one sample(0); HybridGibbs: 8 set-ups whose blocks use all 12 sampler "
+             "classes (Direct, Conjugate, ConjugateApprox, MH, CWMH, PCN, ULA, MALA, NUTS, LinearRTO, RegularizedLinearRTO, "
+             "UGLA), same k, <=4 transitions, <=2 reads (136 per cell) + 38 with one sample(0); stateless: 9 sampler "
+             "classes in 11 set-ups, sample(N,Nb) on "
              "{1..4}x{0..3}, sample_adapt on {10,12}x{0,2,5}; legacy Gibbs: 2 set-ups, all call sequences with parts "
-             "1..3 and total <=4, warm-up 0..2 in the first call",
+             "1..3 and total <=4, warm-up 0..2 in the first call; burnthin: Nb in 0..len, Nt in 1..4, 2 call styles, on "
+             "chains of 4-7 (stateful, HybridGibbs), 8 and 12 (stateless), 4 (legacy Gibbs) states",
     "thorough": "as quick with k in {0,1,2,3}, 3 generator seeds, <=5 sampling transitions (2269 histories per stateful "
-                "cell, 293 per HybridGibbs cell), legacy Gibbs total <=5",
+                "cell, 293 per HybridGibbs cell, +76 with one sample(0)), legacy Gibbs total <=5",
 }
 ASSUMPTIONS = [
     "the oracle is differential: the uninterrupted run of the same sampler on the same stream (the kernels themselves "
@@ -66,9 +82,15 @@ ASSUMPTIONS = [
     "comes from a randomised estimator that varies by an ulp between calls); targets have dimension 1-3",
     "scipy's hidden Fortran generator (estimate_spectral_norm) is reset at the start of every history and at the "
     "reinitialize point, but - like a resume inside one process - not at a crash",
-    "thinning is not an option of either sampling interface (Samples.burnthin is the subject of C19)",
+    "'the same random stream' is read as: after N-then-M the global numpy generator (MT19937 key, position, cached "
+    "normal) is in the state it has after N+M, so that any continuation sees the same numbers; only compared when "
+    "the chains agree; draws from other generators (scipy's) are not counted",
+    "thinning is not an option of either sampling interface: the thinning values of the quantifier are exercised "
+    "through burnthin(Nb, Nt) of the recorded chain objects (Samples / JointSamples / legacy Gibbs dict of Samples); "
+    "oracle is the slice stored[Nb::Nt] of the states recorded at production time; a raise is accepted when that "
+    "slice is empty (Nb >= length); statistics of Samples are the subject of C19",
     "HybridGibbs and legacy Gibbs offer no check-point, call-back or reinitialize API: only continuity, warm-up, "
-    "length and immutability are decided for them",
+    "length, stream consumption, burn-in/thinning and immutability are decided for them",
 ]
 
 RTOL = 1e-10
@@ -186,9 +208,37 @@ def t_hier_mh(cat):
     return cuqi.distribution.JointDistribution(x, d, s)
 
 
+def t_direct(cat):
+    """x ~ Gaussian, b | x ~ Gaussian(Ax, .): the conditional of b is a plain distribution (Direct block), the
+    conditional of x a posterior with gradient (CWMH / ULA block)."""
+    import cuqi
+    x = cuqi.distribution.Gaussian(refs.dyadic_vec(2, cat + 2, scale=0.125), refs.spd_matrix(2, cat), name="x")
+    b = cuqi.distribution.Gaussian(cuqi.model.LinearModel(_A(cat)), 0.5, name="b")
+    return cuqi.distribution.JointDistribution(x, b)
+
+
+def t_lmrf_hier(cat):
+    """s ~ Gamma, x | s ~ LMRF(0, 1/s), y | x ~ Gaussian(Ax, .): UGLA block for x, ConjugateApprox block for s."""
+    import cuqi
+    s = cuqi.distribution.Gamma(1.5 + cat, 0.5, name="s")
+    x = cuqi.distribution.LMRF(0, lambda s: 1 / s, geometry=3, name="x")
+    y = cuqi.distribution.Gaussian(cuqi.model.LinearModel(refs.full_matrix(3, 3, cat)), 0.5, name="y")
+    return cuqi.distribution.JointDistribution(s, x, y)(y=_data(cat))
+
+
+def t_reg_hier(cat):
+    """t_hier with a non-negativity constrained x: RegularizedLinearRTO block for x, Conjugate blocks for d and l."""
+    import cuqi
+    d = cuqi.distribution.Gamma(1.5, 0.5, name="d")
+    l = cuqi.distribution.Gamma(2.0 + cat, 1.0, name="l")
+    x = cuqi.implicitprior.RegularizedGaussian(np.zeros(2), prec=lambda d: d, constraint="nonnegativity", name="x")
+    y = cuqi.distribution.Gaussian(cuqi.model.LinearModel(_A(cat)), prec=lambda l: l, name="y")
+    return cuqi.distribution.JointDistribution(d, l, x, y)(y=_data(cat))
+
+
 TARGETS = {"gauss": t_gauss, "gauss1": t_gauss1, "post": t_post, "multi": t_multi, "reg": t_reg, "reg3": t_reg3, "lmrf": t_lmrf,
            "conj": t_conj, "lmrf_gamma": t_lmrf_gamma,
-           "hier": t_hier, "hier_mh": t_hier_mh}
+           "hier": t_hier, "hier_mh": t_hier_mh, "direct": t_direct, "lmrf_hier": t_lmrf_hier, "reg_hier": t_reg_hier}
 
 X0 = {2: np.array([0.5, -0.25]), 3: np.array([0.25, -0.5, 0.75]), 1: np.array([1.25])}
 
@@ -220,7 +270,13 @@ def _stateful_setups():
     }
 
 
-GIBBS_SETUPS = ["HybridGibbs/hier", "HybridGibbs/hier_mh", "HybridGibbs/hier_mh-nuts", "HybridGibbs/hier_mh-scalar_x0"]
+# Together the set-ups use every sampler class exported by cuqi.experimental.mcmc as a block sampler:
+#   hier: LinearRTO, Conjugate | hier_mh*: MH, PCN, MALA, NUTS | hier_mh-ula: ULA | direct: Direct (+CWMH)
+#   lmrf_hier: UGLA, ConjugateApprox | reg_hier: RegularizedLinearRTO (+Conjugate)
+GIBBS_SETUPS = ["HybridGibbs/hier", "HybridGibbs/hier_mh", "HybridGibbs/hier_mh-nuts", "HybridGibbs/hier_mh-scalar_x0",
+                "HybridGibbs/hier_mh-ula", "HybridGibbs/direct", "HybridGibbs/lmrf_hier", "HybridGibbs/reg_hier"]
+BLOCK_ALPHABET = ("Direct", "Conjugate", "ConjugateApprox", "MH", "CWMH", "PCN", "ULA", "MALA", "NUTS", "LinearRTO",
+                  "RegularizedLinearRTO", "UGLA")
 
 
 def _make_stateful(setup, cat, callback):
@@ -236,6 +292,20 @@ def _make_hybrid(setup, cat):
     if tid == "hier":
         strategy = {"x": mcmc.LinearRTO(maxit=4), "d": mcmc.Conjugate(), "l": mcmc.Conjugate()}
         steps = None
+    elif tid == "reg_hier":
+        strategy = {"x": mcmc.RegularizedLinearRTO(maxit=25), "d": mcmc.Conjugate(), "l": mcmc.Conjugate()}
+        steps = None
+    elif tid == "lmrf_hier":
+        strategy = {"x": mcmc.UGLA(maxit=4, initial_point=X0[3].copy()), "s": mcmc.ConjugateApprox()}
+        steps = None
+    elif tid == "direct":
+        strategy = {"x": mcmc.CWMH(scale=0.8, initial_point=X0[2].copy()), "b": mcmc.Direct()}
+        steps = {"x": 2}
+    elif setup.endswith("ula"):             # (the stateful CWMH does not run on 1-D targets: CWMH is a block of `direct`)
+        strategy = {"d": mcmc.MH(initial_point=np.array([3.0]), scale=0.8),
+                    "s": mcmc.PCN(initial_point=np.array([3.0]), scale=0.5),
+                    "x": mcmc.ULA(initial_point=np.array([0.25]), scale=0.05)}
+        steps = {"s": 2}
     elif setup.endswith("nuts"):
         strategy = {"d": mcmc.MH(initial_point=np.array([3.0]), scale=0.8),
                     "s": mcmc.PCN(initial_point=np.array([3.0]), scale=0.5),
@@ -258,6 +328,7 @@ def _make_hybrid(setup, cat):
 # ----------------------------------------------------------------------------------------
 ADV = {"S1": 1, "S2": 2}
 DEV = ("CP", "GS", "R")
+ZERO = ("S0",)          # sample(0): the split positions 0 and N of "N then M"
 
 
 def histories(maxn, maxdev, dev=DEV, reinit=True):
@@ -280,6 +351,22 @@ def histories(maxn, maxdev, dev=DEV, reinit=True):
     return out
 
 
+def zero_call_histories(maxn):
+    """All sample(1)/sample(2) sequences with <= maxn transitions and exactly one zero-length call sample(0)."""
+    return [h for h in histories(maxn, 1, dev=ZERO, reinit=False) if "S0" in h]
+
+
+def _rng_state():
+    """Position of the global numpy generator as plain comparable data."""
+    st = np.random.get_state()
+    return (st[0], bytes(np.asarray(st[1]).tobytes()), int(st[2]), int(st[3]), float(st[4]))
+
+
+def _rng_diff(a, b):
+    return ("generator left at word %d of its block (cached normal: %d), the uninterrupted run leaves it at word %d "
+            "(cached normal: %d)%s" % (a[2], a[3], b[2], b[3], "" if a[1] == b[1] else ", in a different key block"))
+
+
 def _drop_one_dev(h):
     """Histories obtained by deleting one non-advancing operation."""
     res = []
@@ -291,7 +378,7 @@ def _drop_one_dev(h):
 
 def _kind(h):
     ks = sorted({op for op in h if op not in ADV})
-    names = {"CP": "checkpoint", "GS": "set_state", "R": "get_samples", "RI": "reinitialize"}
+    names = {"CP": "checkpoint", "GS": "set_state", "R": "get_samples", "RI": "reinitialize", "S0": "zero-length-call"}
     return "+".join(names[k] for k in ks) if ks else "split"
 
 
@@ -340,7 +427,7 @@ class Log:
 
 
 class Obs:
-    __slots__ = ("chain", "state", "segs", "error", "reads", "transitions", "ops", "refused")
+    __slots__ = ("chain", "state", "segs", "error", "reads", "transitions", "ops", "refused", "rng", "raw")
 
     def __init__(self):
         self.chain = None      # chain recorded by the final sampler object (list of vectors)
@@ -351,6 +438,8 @@ class Obs:
         self.transitions = 0
         self.ops = 0
         self.refused = 0       # reads of an empty chain that the implementation refused (allowed)
+        self.rng = None        # state of the global numpy generator after the last operation
+        self.raw = None        # the object returned by the final get_samples() / sample() call
 
 
 def _read(s, made, o):
@@ -399,6 +488,8 @@ def run_stateful(setup, cat, k, seed, ops, tmpdir):
                 pos += ADV[op]
                 made += ADV[op]
                 o.transitions += ADV[op]
+            elif op == "S0":
+                s.sample(0)
             elif op == "R":
                 got = _read(s, made, o)
                 if got is not None:
@@ -430,6 +521,7 @@ def run_stateful(setup, cat, k, seed, ops, tmpdir):
                 np.random.set_state(rng)                # same stream position as at the crash
                 o.segs.append((k + pos, log))
                 made = 0
+        o.rng = _rng_state()
         stage = "get_samples"
         got = _read(s, made, o)
         o.chain = [] if got is None else _chain_of(got)
@@ -461,9 +553,12 @@ def run_hybrid(setup, cat, k, seed, ops):
             if op in ADV:
                 s.sample(ADV[op])
                 o.transitions += ADV[op]
+            elif op == "S0":
+                s.sample(0)
             else:
                 got = s.get_samples()
                 o.reads.append((got, {p: np.array(got[p].samples, copy=True) for p in s.par_names}))
+        o.rng = _rng_state()
         stage = "get_samples"
         got = s.get_samples()
         o.chain = {p: _chain_of(got[p]) for p in s.par_names}
@@ -473,10 +568,79 @@ def run_hybrid(setup, cat, k, seed, ops):
 
 
 # ----------------------------------------------------------------------------------------
-# stateful cells
+# burn-in / thinning product on a recorded chain object
 # ----------------------------------------------------------------------------------------
 def _eq_chain(a, b):
     return len(a) == len(b) and all(_same(x, y) for x, y in zip(a, b))
+
+
+NT_VALUES = (1, 2, 3, 4)
+
+
+def burnthin_product(res, obj, stored, producer):
+    """obj: Samples, JointSamples or plain dict of Samples as handed out by `producer`; stored: {parameter: list of
+    state vectors} copied when the chain was recorded ({"": chain} for a single Samples).
+    For all Nb in 0..len, Nt in NT_VALUES, call style in {positional, keyword}: burnthin returns exactly the stored
+    states Nb, Nb+Nt, ... in order (or raises when none is left); the recorded chain object is not altered."""
+    single = hasattr(obj, "samples")
+    plain = (not single) and not hasattr(obj, "burnthin")           # legacy Gibbs: dict of Samples
+    comp = "cuqi.samples." + ("Samples" if plain else type(obj).__name__)
+    parts = (lambda o: {"": o}) if single else (lambda o: dict(o))
+    length = len(next(iter(stored.values())))
+    seen = set()
+
+    def fail(facet, Nt, msg, Nb):
+        sig = "C14|%s|burnthin|%s,%s" % (comp, facet, "Nt=1" if Nt == 1 else "Nt>1")
+        if sig not in seen:
+            seen.add(sig)
+            res.fail(sig, "%s (chain of %d states recorded by %s)" % (msg, length, producer), focus={"Nb": Nb, "Nt": Nt})
+
+    res.outcomes.add("burnthin:%s:len=%d" % (type(obj).__name__, length))
+    for Nb in range(length + 1):
+        for Nt in NT_VALUES:
+            res.state(("burnthin", Nb, Nt))
+            for style in ("positional", "keyword"):
+                call = "burnthin(%d, %d)" % (Nb, Nt) if style == "positional" else "burnthin(Nb=%d, Nt=%d)" % (Nb, Nt)
+                res.transitions += 1
+                res.evaluations += 1
+                try:
+                    if plain:
+                        out = {p_: (v.burnthin(Nb, Nt) if style == "positional" else v.burnthin(Nb=Nb, Nt=Nt))
+                               for p_, v in obj.items()}
+                    else:
+                        out = obj.burnthin(Nb, Nt) if style == "positional" else obj.burnthin(Nb=Nb, Nt=Nt)
+                    got = {p_: _chain_of(v) for p_, v in parts(out).items()}
+                except Exception as e:
+                    if Nb >= length:        # nothing left: refusal allowed
+                        res.refused += 1
+                        res.count("burnthin-refused-empty")
+                    else:
+                        fail("raises", Nt, "%s raised %s: %s" % (call, type(e).__name__, str(e)[:120]), Nb)
+                    continue
+                if sorted(got) != sorted(stored):
+                    fail("parameters", Nt, "%s returned chains for %s, recorded were %s" % (call, sorted(got), sorted(stored)), Nb)
+                    continue
+                for p_ in sorted(stored):
+                    want = stored[p_][Nb::Nt]
+                    name = (" of %r" % p_) if p_ else ""
+                    if len(got[p_]) != len(want):
+                        fail("length", Nt, "%s%s has %d states, the states %s of the recorded chain are %d" % (
+                            call, name, len(got[p_]), list(range(Nb, length, Nt)), len(want)), Nb)
+                        break
+                    if not _eq_chain(got[p_], want):
+                        fail("states", Nt, "%s%s does not list the recorded states %s in order" % (
+                            call, name, list(range(Nb, length, Nt))), Nb)
+                        break
+                else:
+                    res.count("burnthin-ok")
+    now = {p_: _chain_of(v) for p_, v in parts(obj).items()}
+    if sorted(now) != sorted(stored) or any(not _eq_chain(now[p_], stored[p_]) for p_ in stored):
+        fail("stored-entry-altered", 1, "the recorded chain changed while burnthin was applied to it", 0)
+
+
+# ----------------------------------------------------------------------------------------
+# stateful cells
+# ----------------------------------------------------------------------------------------
 
 
 LOOP_FACETS = ("length", "callback-count", "callback-index")     # book-keeping of the sample()/warmup() loop
@@ -536,6 +700,11 @@ def _judge_stateful(o, ref, k, n):
                     bad["state:" + key] = "state payload entry %r is %r, uninterrupted run has %r" % (
                         key, o.state[key], ref.state[key])
                     break
+    # the same random stream: what the run consumed == what the uninterrupted run consumed (a diverged chain or
+    # state implies a diverged continuation already)
+    # (not at (k, n) = (0, 0): there the uninterrupted run has not even initialised the sampler, which may consume draws)
+    if not bad and total > 0 and o.rng is not None and ref.rng is not None and o.rng != ref.rng:
+        bad["stream"] = _rng_diff(o.rng, ref.rng)
     return bad
 
 
@@ -610,9 +779,13 @@ def eval_stateful(cell, res):
         res.outcomes.add("%s:k%d:moves=%s" % (setup, k, _moves(full)))
         if len({tuple(np.round(v, 12)) for v in full}) < 2:
             res.nontrivial = False
+        # burn-in / thinning product on the recorded chain; stored states = what the call-back received at production
+        if refs_[maxn].raw is not None:
+            burnthin_product(res, refs_[maxn].raw, {"": [v for v, _ in refs_[maxn].segs[0][1].entries]},
+                             "cuqi.experimental.mcmc.%s.get_samples() after warmup(%d);sample(%d)" % (cls, k, maxn))
         fails = {}
         ncrash = 0
-        for h in histories(maxn, maxdev):
+        for h in histories(maxn, maxdev) + zero_call_histories(maxn):
             n = sum(ADV.get(op, 0) for op in h)
             o = run_stateful(setup, cat, k, seed, h, tmpdir)
             res.transitions += o.ops
@@ -683,8 +856,10 @@ def _run_ref(setup, cat, k, seed, n, tmpdir):
             s.sample(n)
             o.ops += 1
         o.transitions = k + n
+        o.rng = _rng_state()
         stage = "get_samples"
         got = _read(s, k + n, o)
+        o.raw = got
         o.chain = [] if got is None else _chain_of(got)
         try:
             st = s.get_state()["state"]
@@ -723,8 +898,14 @@ def eval_hybrid(cell, res):
                 res.fail("C14|%s|sample|length" % comp, "chain of %r has %d entries after %d transitions" % (p, len(ch), k + n))
     full = refs_[maxn].chain
     res.outcomes.add("%s:k%d:moves=%s" % (setup, k, "/".join(_moves(full[p]) for p in sorted(full))))
+    res.outcomes.add("%s:blocks=%s" % (setup, "+".join(refs_[maxn].state)))
+    for b in refs_[maxn].state:
+        res.count("block:" + b)
+    # burn-in / thinning product on the JointSamples; stored states = copy of its content when it was handed out
+    burnthin_product(res, refs_[maxn].raw, full, "HybridGibbs.get_samples() after warmup(%d);sample(%d) (set-up %s)"
+                     % (k, maxn, setup))
     fails = {}
-    for h in histories(maxn, maxdev, dev=("R",), reinit=False):
+    for h in histories(maxn, maxdev, dev=("R",), reinit=False) + zero_call_histories(maxn):
         n = sum(ADV.get(op, 0) for op in h)
         o = run_hybrid(setup, cat, k, seed, h)
         res.transitions += o.ops
@@ -745,6 +926,8 @@ def eval_hybrid(cell, res):
             for got, copy in o.reads:
                 if any(not _same(np.asarray(got[p].samples, dtype=float), copy[p]) for p in copy):
                     bad["stored-entry-altered"] = "a chain returned by get_samples() changed after it was returned"
+            if not bad and o.rng != ref.rng:
+                bad["stream"] = _rng_diff(o.rng, ref.rng)
         if bad:
             fails[h] = bad
     _attribute(res, comp, fails, extra=" (set-up %s, warm-up %d, seed %d)" % (setup, k, seed))
@@ -766,9 +949,12 @@ def _hybrid_ref(setup, cat, k, seed, n):
             stage = "sample"
             s.sample(n)
             o.ops += 1
+        o.rng = _rng_state()
         stage = "get_samples"
         got = s.get_samples()
+        o.raw = got
         o.chain = {p: _chain_of(got[p]) for p in s.par_names}
+        o.state = sorted({type(b).__name__ for b in s.samplers.values()})      # block sampler classes in use
     except Exception as e:
         o.error = (stage, "%s: %s" % (type(e).__name__, str(e)[:200]))
     return o
@@ -886,6 +1072,7 @@ def eval_legacy(cell, res):
                     if not _eq_chain(a.chain, b.chain[:len(a.chain)]):
                         found.setdefault("chain-order", ("sample(%d, 0) is not a prefix of sample(%d, 0) on the same "
                                                          "stream" % (T, T + 1), {"N": T, "Nb": 0}))
+        longest = full.get(tmax + 1) if (full.get(tmax + 1) is not None and full[tmax + 1].error is None) else None
         for N, Nb in grid:
             o = run_legacy(setup, cat, seed, method, N, Nb)
             res.transitions += N + Nb - 1
@@ -896,6 +1083,8 @@ def eval_legacy(cell, res):
                 continue
             res.traces += 1
             res.evaluations += 1
+            if hasattr(o.raw, "samples") and (longest is None or len(o.chain) > len(longest.chain)):
+                longest = o
             moved = moved or len({tuple(np.round(v, 12)) for v in o.chain}) > 1
             bad = _judge_legacy(o, N, Nb, full.get(N + Nb), burnin_equiv and method == "sample")
             if bad:
@@ -915,6 +1104,9 @@ def eval_legacy(cell, res):
             bad = _judge_legacy(o, N, Nb, None, False)
             if bad:
                 found.setdefault(bad[0], (bad[1], {"N": N, "Nb": Nb}))
+        # burn-in / thinning product on the longest returned chain of the grid (content copied when it was returned)
+        if longest is not None and hasattr(longest.raw, "samples"):
+            burnthin_product(res, longest.raw, {"": longest.chain}, "cuqi.sampler.%s.%s (set-up %s)" % (cls, method, setup))
         for facet in FACET_PRIORITY:
             if facet in found:
                 res.fail("C14|%s|%s|%s" % (comp, method, facet), "%s (set-up %s, seed %d; also failing: %s)" % (
@@ -970,6 +1162,8 @@ def run_gibbs(setup, cat, seed, calls, Nb):
             o.ops += 1
             o.transitions += N + (Nb if j == 0 else 0)
             o.reads.append((got, {p: np.array(got[p].samples, copy=True) for p in got}))
+        o.rng = _rng_state()
+        o.raw = got
         o.chain = {p: _chain_of(got[p]) for p in got}
     except Exception as e:
         o.error = (stage, "%s: %s" % (type(e).__name__, str(e)[:200]))
@@ -1015,6 +1209,9 @@ def eval_gibbs(cell, res):
                     fail(op, "chain", "calls %s (Nb=%d): chain of %r differs from the single call sample(%d, %d) on the "
                          "same stream" % (list(calls), Nb, p, n, Nb))
                     break
+            else:
+                if o.rng != ref.rng:
+                    fail(op, "stream", "calls %s (Nb=%d): %s" % (list(calls), Nb, _rng_diff(o.rng, ref.rng)))
             # chains returned by earlier calls are not altered by later transitions, and are prefixes of the final one
             m = 0
             for (got, copy), N in zip(o.reads, calls):
@@ -1028,6 +1225,7 @@ def eval_gibbs(cell, res):
                              "the final chain" % (list(calls), Nb, m))
         if refs_[maxn].error is None:
             ch = refs_[maxn].chain
+            burnthin_product(res, refs_[maxn].raw, ch, "cuqi.sampler.Gibbs.sample(%d, %d) (set-up %s)" % (maxn, Nb, setup))
             res.outcomes.add("%s:Nb%d:moves=%s" % (setup, Nb, "/".join(_moves(ch[p]) for p in sorted(ch))))
             res.sample = {"setup": setup, "Nb": Nb, "reference": {p: [float(v[0]) for v in ch[p]] for p in ch}}
 
